@@ -19,7 +19,11 @@ a kill as the zkid file does, new after an expiry), the clock (10 ms pass
 between two ops; request links are stamped with the virtual time), the order
 in which a starting service replays the requests it finds (glob order), when
 watch events and directory events are handled, session expiry (also between two
-ZooKeeper calls of a handler), process kill, the master (moves placements).
+ZooKeeper calls of a handler), what the clients do to the request directory
+while a create handler is between two ZooKeeper calls (the finish of the
+container being handled or of a sibling deletes its request, the next
+container of the instance puts its request: nested op req_race), process kill,
+the master (moves placements).
 
 Every op is a non-blocking handler invocation; a run is a pure function of
 (config, ops).
@@ -84,7 +88,8 @@ HOST_POOLS = (
 TERMINAL = ('finished', 'aborted', 'killed')
 SETTLE_ROUNDS = 8
 NESTABLE = ('svc', 'deliver', 'expire', 'delete', 'create', 'kill', 'restart',
-            'place', 'ep_exit', 'ep_crash', 'ep_reap')
+            'place', 'ep_exit', 'ep_crash', 'ep_reap', 'req_race')
+RACE_KINDS = ('finish', 'sibling_finish', 'sibling_start')
 
 
 _REAL_RETRY = kretry.KazooRetry
@@ -221,7 +226,7 @@ class Cont:
     """Harness truth about one container (one presence request)."""
     __slots__ = ('seq', 'rank', 'host', 'inst', 'rsrc_id', 'data', 'paths',
                  'kind', 'present', 'acked_sid', 'voided', 'waiting',
-                 'ever_waited', 'req_dir', 'client', 'last_eval')
+                 'ever_waited', 'req_dir', 'client', 'last_eval', 'raced')
 
     def __init__(self, seq, rank, host, inst, data, kind):
         self.seq = seq
@@ -238,6 +243,7 @@ class Cont:
         self.waiting = False
         self.ever_waited = False
         self.last_eval = None     # how its request was last evaluated
+        self.raced = False        # deleted while its create handler ran
         self.req_dir = None
         self.client = None
 
@@ -314,11 +320,17 @@ class World:
             'rt_crashed_session_lingers': 0,
             'rt_registered_while_same_data_node_lingers': 0,
             'handler_preempted': 0, 'preempted_by_other_hosts_handler': 0,
+            'handled_request_deleted_under_handler': 0,
+            'race_outside_create_handler': 0,
+            'delete_processed_after_racing_finish': 0,
         }
         self.faults = {'session_expired': 0, 'expire_mid_handler': 0,
                        'reply_lost_applied': 0, 'reply_lost_not_applied': 0,
                        'svc_killed': 0, 'kill_node': 0, 'placement_moved': 0,
-                       'rt_session_closed': 0}
+                       'rt_session_closed': 0,
+                       'request_deleted_mid_create': 0,
+                       'sibling_request_deleted_mid_create': 0,
+                       'sibling_request_created_mid_create': 0}
         self.unexpected = {'error_replies': 0, 'svc_died_unhandled': 0}
         self.oracle = presencecheck.Oracle(self.zk)
         self.oracle.set_role(self.admin.client_id[0], 'admin', None)
@@ -379,10 +391,10 @@ class World:
         session the simulator may let the rest of the world act.  What
         happens before the k-th call of the handler invocation(s) of an op is
         recorded in the op: "during": [[k, [op, ...]], ...] (the older form
-        "mid": {"at": k, "do": op} means [[k, [op]]])."""
-        orig = client._check
-
-        def hooked():
+        "mid": {"at": k, "do": op} means [[k, [op]]]).  A nested
+        {"op": "req_race", "what": ...} acts on the request whose create
+        handler is in flight at that call (op_req_race)."""
+        def hook(_path=None):
             frame = self.frames[-1] if self.frames else None
             if frame is not None and frame['host'] == hostname and \
                     frame['points']:
@@ -390,8 +402,8 @@ class World:
                 todo = frame['points'].pop(frame['calls'], None)
                 if todo:
                     self._preempt(hostname, frame['calls'], todo)
-            orig()
-        client._check = hooked
+        # simkit.zk calls it (with the path) before every call of the client
+        client.call_hook = hook
 
     def _preempt(self, hostname, at, todo):
         saved_conn = context.GLOBAL.zk._conn
@@ -438,7 +450,8 @@ class World:
                         isinstance(item[0], int) and \
                         isinstance(item[1], list):
                     points.setdefault(item[0], []).extend(item[1])
-        self.frames.append({'host': host.name, 'calls': 0, 'points': points})
+        self.frames.append({'host': host.name, 'calls': 0, 'points': points,
+                            'handling': None})
 
     def _disarm(self):
         frame = self.frames.pop()
@@ -551,13 +564,24 @@ class World:
             if cand.rsrc_id == base and cand.host == host.name:
                 cont = cand
         pos = len(self.zk.oplog)
-        res = host.svc._on_created(impl, path)          # real
-        if cont is None or base.startswith('.') or not cont.present:
+        was_present = cont is not None and cont.present
+        frame = self.frames[-1] if self.frames else None
+        if frame is not None and frame['host'] == host.name:
+            # whose request is in flight: a req_race at a pre-emption point
+            # of this handler acts on this request / on its siblings
+            frame['handling'] = cont
+        try:
+            res = host.svc._on_created(impl, path)      # real
+        finally:
+            if frame is not None and frame['host'] == host.name:
+                frame['handling'] = None
+        if cont is None or base.startswith('.') or not was_present:
             # temporary link, or a stale event of a request deleted since
             return res
         cont.last_eval = how
         window = self.zk.oplog[pos:]
-        if any(e[2] == 'set' and e[1] == sid for e in window):
+        if cont.present and any(e[2] == 'set' and e[1] == sid
+                                for e in window):
             self.probes['own_node_updated'] += 1
         # clause (3) also while an old container's request is (re)evaluated:
         # whatever that handling removes must not be the acknowledged
@@ -578,6 +602,13 @@ class World:
                             how, cont.rsrc_id, cont.seq, host.name, dpath,
                             other.rsrc_id, other.seq, other.inst, other.host))
                     return res
+        if not cont.present:
+            # the request was deleted (finish of the container) while this
+            # handler was between two ZooKeeper calls: whatever was answered,
+            # nobody is there to take it as an acknowledgement
+            self.probes['handled_request_deleted_under_handler'] += 1
+            self.log.ev('handled-gone', host.name, cont.seq, bool(res))
+            return res
         if res:
             was_waiting = cont.waiting
             newly = cont.acked_sid != sid
@@ -635,6 +666,8 @@ class World:
         if cont is None:
             return res
         self.probes['delete_requests_processed'] += 1
+        if cont.raced and res:
+            self.probes['delete_processed_after_racing_finish'] += 1
         self.log.ev('deleted', host.name, cont.seq, repr(res))
         cont.acked_sid = None
         cont.waiting = False
@@ -848,6 +881,68 @@ class World:
         if self.hosts[cont.host].proc is None:
             # nobody will ever see the removal
             cont.waiting = False
+
+    def op_req_race(self, op):
+        """(nested only) While a create handler of a service - first
+        evaluation, retry or replay of a request - is between two ZooKeeper
+        calls, a client acts on the request directory of that service, as the
+        runtime of a container does at any time:
+          what=finish          the container whose request is being handled
+                               finishes: ResourceServiceClient.delete (rename
+                               of the request directory + unlink of the link);
+          what=sibling_finish  another container of the same instance (the
+                               pick-th present one by age, on whichever host)
+                               finishes;
+          what=sibling_start   the next container of the same instance starts
+                               on the same host (host: null) or on the named
+                               one: ResourceServiceClient.put.
+        The target is "the request in flight at that call", which is a
+        function of the ops before; outside a create handler it is a no-op."""
+        frame = self.frames[-1] if self.frames else None
+        cont = frame.get('handling') if frame is not None else None
+        what = op.get('what')
+        if what not in RACE_KINDS:
+            return
+        if cont is None or cont.kind != 'svc':
+            self.probes['race_outside_create_handler'] += 1
+            return
+        if what == 'finish':
+            if not cont.present:
+                return
+            cont.raced = True
+            self.log.ev('race', what, cont.seq)
+            self.faults['request_deleted_mid_create'] += 1
+            self.op_delete({'seq': cont.seq})
+        elif what == 'sibling_finish':
+            sibs = [c for c in self.conts.values()
+                    if c.inst == cont.inst and c is not cont and
+                    c.kind == 'svc' and c.present]
+            if not sibs or not isinstance(op.get('pick'), int):
+                return
+            target = sibs[op['pick'] % len(sibs)]
+            self.log.ev('race', what, cont.seq, target.seq)
+            self.faults['sibling_request_deleted_mid_create'] += 1
+            self.op_delete({'seq': target.seq})
+        else:
+            hname = op.get('host') or cont.host
+            spec = self.config['specs'].get(cont.inst)
+            if hname not in self.hosts or spec is None or \
+                    not isinstance(op.get('seq'), int) or \
+                    op['seq'] in self.conts:
+                return
+            eps = [[e[0], e[1], 30000 + op['seq'], e[2]] for e in spec['eps']]
+            if eps and op.get('short'):
+                eps = eps[:-1]
+            identity = None
+            if spec['group'] and isinstance(op.get('identity_pick'), int):
+                identity = spec['identities'][
+                    op['identity_pick'] % len(spec['identities'])]
+            self.log.ev('race', what, cont.seq, op['seq'], hname)
+            self.op_create({'op': 'create', 'host': hname, 'inst': cont.inst,
+                            'seq': op['seq'], 'eps': eps,
+                            'group': spec['group'], 'identity': identity})
+            if op['seq'] in self.conts:
+                self.faults['sibling_request_created_mid_create'] += 1
 
     def _dir_pending(self, proc):
         return bool(proc.watcher.event_list or
@@ -1192,7 +1287,7 @@ OP_WEIGHTS = [
     ('restart_same_host', 2), ('ep_crash', 1), ('ep_reap', 1),
     ('rt_restart_same_host', 2), ('fence_old_host', 3),
     ('call_level_race', 3), ('delete_reply_lost', 3), ('ping_pong', 3),
-    ('failed_reregistration', 3),
+    ('failed_reregistration', 3), ('finish_races_create', 3),
 ]
 
 
@@ -1203,6 +1298,7 @@ class Generator:
         self.sched = streams.get('sched')
         self.fault = streams.get('fault')
         self.fsorder = streams.get('fsorder')
+        self.race = streams.get('race')
         self.seq = 0
         self.follow = []
         self.weights = [(k, w * config['wmul'].get(k, 1.0))
@@ -1257,7 +1353,7 @@ class Generator:
         requests are deleted."""
         fault = self.fault
         if fault.random() >= self.config['p_mid']:
-            return op
+            return self._race(op)
         others = [h for h in self.config['hosts'] if h != op['host']]
         during = []
         for at in sorted(fault.sample(range(1, 9), fault.choice([1, 1, 2]))):
@@ -1284,6 +1380,36 @@ class Generator:
                 during.append([at, subs])
         if during:
             op['during'] = during
+        return self._race(op)
+
+    def _race_op(self, what=None):
+        """A client acts on the request directory while a create handler is
+        in flight (World.op_req_race)."""
+        race = self.race
+        if what is None:
+            what = race.choice(['finish', 'finish', 'sibling_finish',
+                                'sibling_start'])
+        sub = {'op': 'req_race', 'what': what}
+        if what == 'sibling_finish':
+            sub['pick'] = race.randrange(4)
+        elif what == 'sibling_start':
+            self.seq += 1
+            sub.update({
+                'seq': self.seq, 'short': race.random() < 0.2,
+                'identity_pick': race.randrange(2),
+                'host': (race.choice(self.config['hosts'])
+                         if race.random() < 0.3 else None)})
+        return sub
+
+    def _race(self, op):
+        """Request-directory races of a handler op (own stream: the other
+        decisions of a seed do not depend on them)."""
+        race = self.race
+        if race.random() >= self.config.get('p_race', 0.0):
+            return op
+        at = race.choice([1, 1, 1, 2, 2, 3, 4, 5, 6])
+        op.setdefault('during', []).append([at, [self._race_op()]])
+        op['during'].sort(key=lambda item: item[0])
         return op
 
     def g_svc(self, world):
@@ -1690,6 +1816,102 @@ class Generator:
              'during': [[at, [loss]]]}])
         return new
 
+    def g_finish_races_create(self, world):
+        """Two successive containers of one instance have their requests on
+        one host and nobody holds the claims: both wait for a node of another
+        host's session which then goes away, or the service is restarted and
+        replays them.  The requests are (re)evaluated, and while one of these
+        evaluations is between two ZooKeeper calls a client acts on the
+        request directory - mostly: the finish of the container being
+        evaluated deletes its request.  The world is then left to quiesce."""
+        rng = self.rng
+        cfg = self.config
+        idle = [n for n, h in sorted(world.hosts.items())
+                if h.proc is not None and not world._dir_pending(h.proc)]
+        if not idle:
+            return None
+        here = rng.choice(idle)
+        svc_here = {'op': 'svc', 'host': here, 'n': 5}
+        at = rng.choice([1, 1, 1, 1, 2, 2, 3, 4])
+        what = rng.choice(['finish', 'finish', 'finish', 'finish',
+                           'sibling_finish', 'sibling_start'])
+        races = [[at, [self._race_op(what)]]]
+        if rng.random() < 0.15:
+            races.append([at + rng.choice([1, 2, 3]), [self._race_op()]])
+        tail_end = [dict(svc_here), dict(svc_here), dict(svc_here)]
+        if rng.random() < 0.7:
+            tail_end.append({'op': 'settle'})
+        others = [n for n in idle if n != here]
+        if others and rng.random() < 0.6:
+            # both wait for the other host's node
+            there = rng.choice(others)
+            svc_there = {'op': 'svc', 'host': there, 'n': 5}
+            hsid = world.hosts[there].proc.sid
+            insts = []
+            for inst in cfg['instances']:
+                mine = [c for c in world.conts.values()
+                        if c.inst == inst and c.present]
+                held = [c for c in mine if c.host == there and
+                        c.kind == 'svc' and c.acked_sid == hsid and
+                        world._valid(c)]
+                if not mine or (held and all(c.host == there for c in mine)):
+                    insts.append((inst, held[-1] if held else None))
+            if insts:
+                inst, holder = rng.choice(insts)
+                ops = []
+                if holder is None:
+                    hreq = self._request(world, inst, host=there)
+                    ops += [hreq, dict(svc_there)]
+                    hseq = hreq['seq']
+                else:
+                    hseq = holder.seq
+                old = self._request(world, inst, host=here)
+                new = self._request(world, inst, host=here)
+                ops += [old, dict(svc_here), new, dict(svc_here)]
+                if rng.random() < 0.5:
+                    ops.append({'op': 'expire', 'host': there})
+                else:
+                    ops += [{'op': 'delete', 'seq': hseq}, dict(svc_there)]
+                ops += [{'op': 'deliver', 'host': here, 'n': 9},
+                        {'op': 'svc', 'host': here,
+                         'n': rng.choice([1, 1, 2, 5]), 'during': races}]
+                ops += tail_end
+                self.follow.extend(ops[1:])
+                return ops[0]
+        # the service is restarted and replays both
+        olds = [c for c in world.conts.values()
+                if c.kind == 'svc' and c.present and c.host == here]
+        ops = []
+        if olds and rng.random() < 0.7:
+            old = rng.choice(olds)
+            inst, old_id = old.inst, old.rsrc_id
+        else:
+            inst = rng.choice(cfg['instances'])
+            oreq = self._request(world, inst, host=here)
+            old_id = rsrc_id_of(inst, oreq['seq'])
+            ops += [oreq, dict(svc_here)]
+        new = self._request(world, inst, host=here)
+        ops.append(new)
+        if rng.random() < 0.7:
+            ops.append(dict(svc_here))
+        ops.append({'op': rng.choice(['kill', 'kill', 'expire']),
+                    'host': here})
+        ids = [old_id, rsrc_id_of(inst, new['seq'])]
+        rest = [c.rsrc_id for c in world.conts.values()
+                if c.host == here and c.kind == 'svc' and c.present and
+                c.rsrc_id != old_id]
+        if rng.random() < 0.3:
+            ids.reverse()
+        if rng.random() < 0.5:
+            ids = ids + rest
+        else:
+            ids = rest + ids
+        ops.append({'op': 'restart', 'host': here, 'order': ids,
+                    'during': races})
+        ops += tail_end
+        self.follow.extend(ops[1:])
+        return ops[0]
+
     def g_restart_same_host(self, world):
         """The instance restarts on the same host: the new container
         registers before the old one is cleaned up."""
@@ -1712,6 +1934,9 @@ class Generator:
         return self._request(world, old.inst, host=old.host)
 
 
+LATE_KEYS = ('finish_races_create',)
+
+
 def make_config(prop, tier, rng):
     big = tier == 'thorough'
     nhosts = rng.choice([2, 2, 2, 3])
@@ -1728,17 +1953,25 @@ def make_config(prop, tier, rng):
                        'identities': rng.choice([[0], [0, 1], [0, None]])}
     wmul = {}
     for key, _w in OP_WEIGHTS:
+        if key in LATE_KEYS:
+            continue
         wmul[key] = rng.choice([0.0, 0.5, 1.0, 1.0, 2.0]) \
             if key not in ('create', 'svc', 'deliver', 'delete', 'restart') \
             else rng.choice([0.7, 1.0, 1.5])
-    return {'start': 1700000000.0 + rng.randint(0, 7 * 86400),
-            'hosts': hosts, 'instances': instances, 'specs': specs,
-            'n_ops': rng.randint(15, 120 if big else 60),
-            'p_mid': rng.choice([0.0, 0.03, 0.08]),
-            'p_delay': rng.choice([0.0, 0.0, 0.5, 0.8]),
-            'docker': rng.random() < 0.4, 'wmul': wmul,
-            'child_order': (rng.getrandbits(32) if rng.random() < 0.5
-                            else None)}
+    config = {'start': 1700000000.0 + rng.randint(0, 7 * 86400),
+              'hosts': hosts, 'instances': instances, 'specs': specs,
+              'n_ops': rng.randint(15, 120 if big else 60),
+              'p_mid': rng.choice([0.0, 0.03, 0.08]),
+              'p_delay': rng.choice([0.0, 0.0, 0.5, 0.8]),
+              'docker': rng.random() < 0.4, 'wmul': wmul,
+              'child_order': (rng.getrandbits(32) if rng.random() < 0.5
+                              else None)}
+    # swarm parameters added later are drawn after all the others, so that
+    # the rest of the configuration of a seed stays what it was
+    config['p_race'] = rng.choice([0.0, 0.05, 0.15])
+    for key in LATE_KEYS:
+        wmul[key] = rng.choice([0.0, 0.5, 1.0, 1.0, 2.0])
+    return config
 
 
 class PresenceSim(enginemod.Engine):
@@ -1795,6 +2028,12 @@ class PresenceSim(enginemod.Engine):
         'expire sessions, delete requests ("during": [[k, ops]]); a pre-empted '
         'process runs no second handler; nested handlers are not pre-empted '
         'again',
+        'clients racing with a create handler: nested {"op": "req_race", '
+        '"what": finish | sibling_finish | sibling_start} at a pre-emption '
+        'point runs the real ResourceServiceClient.delete / put for the '
+        'request in flight at that call / for another / for the next '
+        'container of the same instance; the directory events it causes are '
+        'queued by the real inotify behind the ones already read',
         'host names: a swarm parameter (pools with unrelated names and with '
         'names in a prefix relation, e.g. node1/node10, h.cell.co/h.cell.com)',
         'the scheduler master: a script that creates/deletes '
@@ -1813,7 +2052,11 @@ class PresenceSim(enginemod.Engine):
             'generator emits create/delete requests of successive containers '
             'of the same instance on either host, service turns (n request '
             'events), watch deliveries (n events), session expiry (also '
-            'before the k-th ZooKeeper call of a handler), service kill/'
+            'before the k-th ZooKeeper call of a handler), request deletion '
+            'by the finishing container and request creation by the next '
+            'container of the instance before the k-th ZooKeeper call of the '
+            'create/retry/replay handler of that instance (own stream, '
+            'p_race), service kill/'
             'restart with a recorded replay order, placement moves, trace '
             'events from owner and non-owner hosts, kill_node, docker-style '
             'EndpointPresence registrations whose sleeps interleave other '
@@ -1830,7 +2073,9 @@ class PresenceSim(enginemod.Engine):
             'service handlers (request events of svc/restart ops) can be '
             'pre-empted before any of their ZooKeeper calls by whole handlers '
             'of the other hosts\' services, session expiry, request deletion '
-            'and placement moves; watch callbacks, publish and kill_node run '
+            '(also of the very request being handled) and creation by the '
+            'containers\' clients, and placement moves; watch callbacks, '
+            'publish and kill_node run '
             'atomically; a nested handler is not pre-empted again',
             'a killed service process resumes its session on restart (zkid '
             'file) if the session is still alive, otherwise it gets a new one',
